@@ -1,0 +1,7 @@
+//go:build !verif
+
+package plonk
+
+import "github.com/consensys/gnark-crypto/ecc/bls12-377/fr"
+
+func verifBlinding(_, _, _, _ []fr.Element) {}
